@@ -30,6 +30,11 @@ def build():
             plan.lemmas.append(lem)
     p6 = C06.build()
     plan.import_targets(p6, lambda c: c.qual.startswith("model:DataLists.") or c.qual == "model:_NumbersModel.table_string")
+    from contracts import C07
+    p7 = C07.build()  # the table writer: every row stored exactly once, in its own tile, with its own offsets
+    plan.import_targets(p7, lambda c: c.qual in ("model:_NumbersModel.recalculate_table_data", "model:_NumbersModel.recalculate_row_info"))
+    for lem in p7.lemmas:
+        plan.lemmas.append(lem)
     plan.bounded.append(BoundedStandIn(
         "resave-cycles", "c02_resave.py", [], thorough_args=["--level", "2"], timeout=1500,
         bound="quick: the 45 smallest fixtures under tests/data + 3 documents built through the editing API (values, structure edits, "
@@ -39,7 +44,6 @@ def build():
               "the library warned about while saving",
         functions=["Document(path)", "Document.save", "recalculate_table_data", "Cell._to_buffer", "Cell._from_storage",
                    "DataLists.init/lookup_key", "ObjectStore", "IWAFile"]))
-    plan.assumptions += list(dict.fromkeys(p4.assumptions + p1.assumptions + p6.assumptions))
     plan.trusted += ["pyvc AST->SMT translation (cross-checked against CPython)", "z3 5.1.0", "cvc5 1.0.3"]
     plan.level = "other"
     plan.explanation = ('Mixed: cell-record re-encoding (decoder for all flag words, encoder for every storable kind, round-trip and disjointness lemmas), the decimal128 codec and the string-list re-keying are proved; whole documents over two open/save cycles are a bounded stand-in over the fixtures and built documents.')
